@@ -34,6 +34,7 @@ FINDING_CR = 'csv-bare-carriage-return'
 COLUMNS = ['query', 'predicted.name', 'predicted.rank', 'predicted.ncbi_id', 'predicted.threshold', 'closest.distance', 'closest.description',
            'next.name', 'next.rank', 'next.ncbi_id', 'next.threshold']
 
+DEEP = 40
 QSEGS = [[0, 1, 2], [9], [10, 11], [0, 1, 2, 8, 9], [0, 1, 2, 4, 5, 6], [8, 9], [0, 1]]
 
 
@@ -47,13 +48,28 @@ def plan(tier, seed):
 
 def taxa_for(s, variant):
 	name = lambda i: s if not s else f'{s}{i}'
-	return [
+	taxa = [
 		dict(name=name(0), parent=None, thr=0.95, rank='genus', ncbi_id=100),
 		dict(name=name(1), parent=0, thr=0.6, rank='species', ncbi_id=101),
 		dict(name=name(2), parent=0, thr=0.6, rank=None, ncbi_id=102),
-		dict(name=name(3), parent=None, thr=0.9, rank='genus', ncbi_id=200, report=(variant == 0)),
+		dict(name=name(3), parent=None, thr=0.9, rank='genus', ncbi_id=200, report=(variant != 1)),
 		dict(name=name(4), parent=3, thr=0.5, rank='species', ncbi_id=None, report=False),
 	]
+	if variant == 2:
+		# a lineage of 43 levels: 40 unranked clades between the genus and species 1 (NCBI lineages are this deep)
+		for j in range(DEEP):
+			taxa.append(dict(name=f'clade{j} {s}', parent=0 if j == 0 else 4 + j, thr=0.8 if j == 7 else None, rank=None, ncbi_id=None, report=(j % 5 != 0)))
+		taxa[1]['parent'] = 4 + DEEP
+	return taxa
+
+
+def walk_up(t):
+	"""Names from the taxon to its root by following .parent (independent of Taxon.ancestors)."""
+	out = []
+	while t is not None:
+		out.append(t.name)
+		t = t.parent
+	return out
 
 
 def has_bare_cr(s):
@@ -133,7 +149,7 @@ def check_results(sh, res, session, case, strings):
 					for m, jm in zip(item.closest_genomes, cg):
 						if jm['genome']['key'] != m.genome.key or jm['genome']['description'] != m.genome.description or \
 								np.float32(jm['distance']) != np.float32(m.distance) or float(jm['distance']) != float(np.float32(m.distance)) or \
-								not tx(m.matched_taxon, jm['matched_taxon']) or [t['name'] for t in jm['genome']['taxonomy']] != [t.name for t in m.genome.taxon.ancestors(incself=True)]:
+								not tx(m.matched_taxon, jm['matched_taxon']) or [t['name'] for t in jm['genome']['taxonomy']] != walk_up(m.genome.taxon):
 							good = False
 				if not good:
 					sh.violation('json-item-differs-from-result', dict(case, item=i), None, json.dumps(ji)[:600])
@@ -286,7 +302,7 @@ def t_exports(ti, half, tier):
 			# both text roles change from one database of the task to the next (all 100 pairs are covered over the tasks)
 			s_tax = ALPHABET[(ti + gi) % len(ALPHABET)]
 			s_gen = ALPHABET[gi]
-			variant = (ti + gi) % 2
+			variant = (ti + gi) % 3
 			db = build_db(os.path.join(d, f'db{gi}'), s_tax, s_gen, variant)
 			sigs = [clifix.lib_signature('P0', s) for s in QSEGS]
 			for li, s_lab in enumerate(ALPHABET):
@@ -364,7 +380,7 @@ def replay(case, kind=None):
 	from gambit.seq import SequenceFile
 	sh = Shard()
 	s_tax, s_gen, s_lab = case['taxon_string'], case['genome_string'], case['label_string']
-	variant = (ALPHABET.index(s_tax) + ALPHABET.index(s_gen)) % 2
+	variant = (ALPHABET.index(s_tax) + ALPHABET.index(s_gen)) % 3
 	with fixtures.workdir('c11r') as d:
 		db = build_db(os.path.join(d, 'db'), s_tax, s_gen, variant)
 		sigs = [clifix.lib_signature('P0', s) for s in QSEGS]
